@@ -29,7 +29,7 @@ prefixes `'ag__.'` and `ctx + '.'`): `none ↦ false`. -/
 def keep (env : Env) (ctx : String) : Option String → Bool
   | none => false
   | some full =>
-      full.startsWith "ag__." || full.startsWith (ctx ++ ".") || debuggers.contains full
+      startsWith full "ag__." || startsWith full (ctx ++ ".") || debuggers.contains full
         || (full == "print" && !env.builtinsOn)
 
 /-! `_ArgTemplateBuilder` -/
@@ -157,6 +157,35 @@ def wellAnnotated (env : Env) : Stmt → Bool
 def wellAnnotatedB (env : Env) : List Stmt → Bool
   | [] => true
   | s :: ss => wellAnnotated env s && wellAnnotatedB env ss
+end
+
+/-! `visit_FunctionDef` never visits the parameters themselves (`posonlyargs`, `args`, `vararg`, `kwonlyargs`,
+`kwarg`), only `defaults` / `kw_defaults`: a call inside a PARAMETER ANNOTATION of a nested `def` stays native
+(known finding C04-param-annotation-call).  `plainParams`: no parameter of any nested synchronous `def`
+carries an annotation — the hypothesis of `C04_calls_routed_partial`. -/
+def isPlainArg : Expr → Bool
+  | .arg _ _ an => an.isEmpty
+  | _ => false
+
+def plainArgs : Expr → Bool
+  | .arguments _ po ar va ko _ kw _ => (po ++ ar ++ va ++ ko ++ kw).all isPlainArg
+  | _ => false
+
+mutual
+def plainParams : Stmt → Bool
+  | .functionDef _ _ as b _ _ isA => (isA || plainArgs as) && plainParamsB b
+  | .classDef _ _ _ _ b _ => plainParamsB b
+  | .for_ _ _ _ b e _ _ => plainParamsB b && plainParamsB e
+  | .while_ _ _ b e => plainParamsB b && plainParamsB e
+  | .if_ _ _ b e => plainParamsB b && plainParamsB e
+  | .with_ _ _ b _ => plainParamsB b
+  | .try_ _ b hs e f => plainParamsB b && plainParamsB hs && plainParamsB e && plainParamsB f
+  | .handler _ _ _ b => plainParamsB b
+  | .other _ _ _ bs => plainParamsB bs
+  | _ => true
+def plainParamsB : List Stmt → Bool
+  | [] => true
+  | s :: ss => plainParams s && plainParamsB ss
 end
 
 def envOfTable (t : AnnoTable) (builtinsOn : Bool) : Env :=
